@@ -17,6 +17,7 @@ import (
 type Snap struct {
 	Names      map[string]string // uuid -> normalised name (only when normalising)
 	raw        map[string]drv.Resp
+	ordered    [][2]string // (url key, literal rendering) of list responses whose order is compared
 	M          map[string]string
 	MutationID map[string]uint64 // repo root -> MutationID (compared with >= across restarts)
 	SavedMutID map[string]uint64
@@ -154,6 +155,20 @@ func (wd *World) get(s *Snap, url string) error {
 		r.Body = canonRLE(r.Body)
 	}
 	s.raw[url] = r
+	return nil
+}
+
+// getOrdered records a list response with its order kept (Canon compares JSON arrays as multisets).
+func (wd *World) getOrdered(s *Snap, url string) error {
+	r, err := wd.W.Get(url)
+	if err != nil {
+		return fmt.Errorf("GET %s: %w", url, err)
+	}
+	body := string(r.Body)
+	if r.Status >= 400 {
+		body = "error"
+	}
+	s.ordered = append(s.ordered, [2]string{url + " #in-served-order", fmt.Sprintf("%d|%s", r.Status, drv.Trunc(body, 4000))})
 	return nil
 }
 
@@ -400,6 +415,19 @@ func (wd *World) SnapshotH(versions []string, hints *Hints) (*Snap, error) {
 			if err := wd.post(s, n+"nj/query", []byte(`{"type":"T1"}`), "type=T1"); err != nil {
 				return nil, err
 			}
+			if wd.NJWide {
+				// body ids are decimal-string keys: range reads over bounds of different digit counts, and the key list in
+				// the order it is served (a list's order is observable; neuronjson serves it in a deterministic order on
+				// either path)
+				for _, ep := range []string{"nj/keyrange/5/2000", "nj/keyrangevalues/30/700", "nj/keyrange/100/50000"} {
+					if err := wd.get(s, n+ep); err != nil {
+						return nil, err
+					}
+				}
+				if err := wd.getOrdered(s, n+"nj/keys"); err != nil {
+					return nil, err
+				}
+			}
 		}
 		if on("roi") {
 			if err := wd.get(s, n+"roi/roi"); err != nil {
@@ -432,6 +460,13 @@ func (wd *World) SnapshotH(versions []string, hints *Hints) (*Snap, error) {
 			}
 		}
 		s.M[k] = Canon(resp)
+	}
+	for _, o := range s.ordered {
+		k, v := o[0], o[1]
+		if rp != nil {
+			k, v = fixText(rp, k), fixText(rp, v)
+		}
+		s.M[k] = v
 	}
 	s.raw = nil
 	return s, nil
